@@ -29,8 +29,11 @@ def drive : List String → String
       else
         let kk : Option Nat := if k == "-" then none else k.toNat?
         let (d, _, stop) := deliver vis kk
-        let endS := if stop then "stopped" else "done"
-        s!"yield [{" ".intercalate (d.map Hex.encodeTok)}] end={endS} calls={d.length}"
+        -- a member whose listing breaks off: the merged items, then the error, unless the consumer stopped
+        let failing := layers.contains "unifyerr"
+        let endS := if stop then "stopped" else if failing then "error" else "done"
+        let calls := if !stop && failing then d.length + 1 else d.length
+        s!"yield [{" ".intercalate (d.map Hex.encodeTok)}] end={endS} calls={calls}"
     | _, _, _, _, _ => "bad-op"
   | _ => "bad-op"
 
